@@ -42,14 +42,16 @@ fixed(['C15'], 'e1b81b2', 'settings parsers accepted any uint parameter name sta
 fixed(['C15'], '9c5c7ca', 'setSettings() stored the new settings before calling the setters: with init=false nothing was applied, and only-real -> auto sync mode segfaulted')
 fixed(['C15'], 'dc35f91', 'leastsq_maxrounds / leastsq_acrcy were applied only if the least squares scaler was currently selected')
 
+fixed(['C17'], 'ac19462', 'SLUFactor::assign tested the target\'s stale l.rval instead of the source\'s: assigning a never-solved SoPlex object to a used one crashed (memcpy from null with uninitialised length); found by the memcheck stage')
+fixed(SOLVE + ['C14'], '96460ce', 'SPxWeightST::initPrefs read row[0] of an empty array for an LP without rows (starter=weight/sum/vector): SIGSEGV')
+fixed(['C17'], '2c7ec70', 'SoPlexBase::operator= / copy constructor left _optimizeCalls/_unscaleCalls uninitialised; _reapplyPersistentScaling() of the copy branched on them (memcheck: conditional jump on uninitialised value)')
+
 # ------------------------------------------------------------------ open findings
 UND = r'(ABORT_CYCLING|RUNNING|UNKNOWN|ERROR|SINGULAR)'
 # --- simplex core
 open_(SOLVE, r'(netlib\.)?(cert\.|reuse\.|resolve\.|.*\.resume\.|.*wrong-verdict|complete\.|.*harmless|basis\.|resolve-after|copy-|twins|dependent).*:\{.*solution_polishing=[12].*\}.*',
       'solution polishing (solution_polishing=1|2) returns OPTIMAL with slack != Ax, bound violations or a wrong status after its extra pivots', regex=True,
       repro='./vcheck C01 (any seed): keys C01:cert.slack:{...solution_polishing=...}')
-open_(SOLVE + ['C14'], r'crash:.*SPxWeightST::generate\|SPxSolverBase::solve.*',
-      'SPxWeightST::generate reads out of bounds for an LP without rows (starter=weight, row representation)', regex=True)
 open_(['C01'], r'cert\.redcost:\{\}\+needs\{simplifier\}',
       'default configuration: reduced cost != c - A^T y after presolve (dual postsolve of an aggregation whose basis status was swapped; same root cause as the C08 Aggregation finding); x, slacks and objective are right', regex=True)
 open_(['C04', 'C06', 'C16', 'C14'], r'(reuse\.[a-z\-]+|resolve\.status|[a-z]+\.resume|objlimit\.harmless-changes-status|state\.resolve-status)\.' + UND + r':.*',
@@ -64,7 +66,6 @@ open_(['C05'], r'.*\.rep=row\..*',
 open_(['C05'], r'crash:.*(getBasisInverseColReal|getBasisInverseRowReal|getRowScaleExp).*',
       'row representation: getBasisInverseColReal indexes the scale-exponent array with a basis index (heap-buffer-overflow / use-after-free)', regex=True)
 open_(['C05'], r'crash:(nonrepro-)?signal:SIG(SEGV|ABRT|FPE|BUS):.*', 'row representation: the out-of-bounds writes of getBasisInverseColReal corrupt the heap of the non-sanitized volume build; the process dies later at an unrelated place (not reproducible per case)', regex=True)
-open_(['C17'], r'crash:.*SLUFactor::assign.*', 'copying a SoPlex object whose SLUFactor has never been loaded: SLUFactor::assign reserves u.row.size elements from an uninitialised size (std::length_error)', regex=True)
 open_(['C17'], r'resolve-after-clearBasis-differs:.*',
       'solving the same unmodified object again after clearBasis() is not a replica of the first solve (different iteration count / vertex in 1-3% of the LPs): per-solve state survives clearBasis()', regex=True)
 # --- exact solver
